@@ -126,3 +126,11 @@ Proof.
   - vm_compute. reflexivity.
   - vm_compute. discriminate.
 Qed.
+
+(* the two decisions of ResolverPrivate::onMessageReceived are regenerated from resolver.cpp on every run (SrcDecisions.v):
+   which records are taken (resolver_filter, used by the model directly) and when an address is reported - the record is
+   not a withdrawal and the address has not been reported before: *)
+Theorem C16_report_decision_read_from_the_source r known :
+  resolver_report r known = negb (r_ttl r =? 0)%N && negb known.
+Proof. reflexivity. Qed.
+Print Assumptions C16_report_decision_read_from_the_source.
